@@ -633,6 +633,10 @@ class Array:
             totallen=(endindex - startindex),
             chunklen=chunklen,
             steplen=stepsize)
+        # parameters may be NumPy scalars of a type too narrow to hold the
+        # frame boundaries (e.g. np.uint8(100)), we calculate with Python ints
+        chunklen, stepsize = int(chunklen), int(stepsize)
+        startindex, endindex = int(startindex), int(endindex)
         framestart = startindex
         frameend = framestart + chunklen
         for _ in range(nframes):
